@@ -379,3 +379,114 @@ def _keys_and_tags(j):
         for v in j:
             out |= _keys_and_tags(v)
     return out
+
+
+class EvolveJudge(Judge):
+    """C07: StoneEvolveMC vectors replayed with two generated packages (versions A and B)."""
+
+    def __init__(self, params):
+        super().__init__(params)
+        self.a = None
+        self.bs = {}
+        from stone.backends.python_rsrc import stone_serializers as ss
+        from stone.backends.python_rsrc import stone_validators as bv
+        self.ss, self.bv = ss, bv
+
+    def _pkg(self, schema, extra_route=False):
+        specs = render_schema(schema)
+        if extra_route:
+            specs = [(p, t + ('\nroute brand_new(Void, Void, Void)\n' if p == 'nsa.stone' else '')) for p, t in specs]
+        gen = Generated(specs)
+        return {'schema': schema, 'gen': gen, 'binder': Binder(schema, gen), 'specs': specs}
+
+    def setup(self, obj):
+        if self.a is None:
+            self.a = self._pkg(obj['specA'])
+        key = json.dumps(obj['edits'], sort_keys=True)
+        if key not in self.bs:
+            if len(self.bs) > 40:      # bound memory: drop the oldest package
+                k0 = next(iter(self.bs))
+                self.bs.pop(k0)['gen'].close()
+            self.bs[key] = self._pkg(obj['specB'], any(e['e'] == 'add_route' for e in obj['edits']))
+            self.bs[key]['ren'] = dict(obj['ren']) if isinstance(obj['ren'], dict) else {}
+            self.bs[key]['specB'] = obj['specB']
+            self.bs[key]['edits'] = obj['edits']
+            self.count('histories')
+
+    def finish(self):
+        if self.a:
+            self.a['gen'].close()
+        for b in self.bs.values():
+            b['gen'].close()
+        self.bs = {}
+
+    def on_vec(self, tag, obj):
+        if tag != 'VEC':
+            return
+        obj = norm_abs(obj)
+        if obj['phase'] == 'schema':
+            self.setup(obj)
+            return
+        self.n += 1
+        key = json.dumps(obj['edits'], sort_keys=True)
+        b = self.bs[key]
+        a = self.a
+        ren = b['ren']                      # B-name -> A-name
+        inv = {v: k for k, v in ren.items()}
+        ss, bv = self.ss, self.bv
+        ctx = {'vector': obj, 'specA': a['schema'], 'specB': b['specB'], 'ren': ren}
+        root = obj['root']
+        if obj['dir'] == 'forward':
+            snd, rcv = b, a
+            rroot = {'k': 'ref', 'n': ren.get(root['n'], root['n'])}
+        else:
+            snd, rcv = a, b
+            rroot = {'k': 'ref', 'n': inv.get(root['n'], root['n'])}
+        try:
+            py = snd['binder'].to_py(root, obj['val'])
+            wire = ss.json_encode(snd['binder'].validator(root['n']), py)
+        except Exception as e:
+            self.violation(None, 'sender (%s) could not encode a valid value: %s: %s' % (obj['dir'], type(e).__name__, e), ctx)
+            return
+        if not json_strict_eq(json.loads(wire), doc_to_json(obj['doc'])):
+            self.violation(None, 'sender (%s) encoding differs from the documented wire format: %s' % (obj['dir'], wire[:300]), ctx)
+            return
+        rval = rcv['binder'].validator(rroot['n'])
+        for strict, k in ((True, 'strict'), (False, 'lenient')):
+            exp = obj[k]
+            try:
+                dec = ss.json_decode(rval, wire, strict=strict)
+                out = ('ok', dec)
+            except bv.ValidationError as e:
+                out = ('verr', str(e))
+            except Exception as e:
+                self.violation('exc_' + type(e).__name__, '%s receiver raised %s: %s on %s' % (obj['dir'], type(e).__name__, e, wire[:300]), ctx)
+                continue
+            if obj.get('unpromised'):
+                self.skip('unpromised_direction')
+                continue
+            if exp['k'] == 'unspec':
+                self.skip('unspecified')
+                continue
+            self.judged += 1
+            if self.judged % 2999 == 1:
+                self.sample({'edits': obj['edits'], 'direction': obj['dir'], 'strict': strict, 'wire': json.loads(wire),
+                             'expected': exp})
+            what = '%s, %s receiver, history %s, message %s' % (obj['dir'], 'strict' if strict else 'lenient',
+                                                              json.dumps(obj['edits']), wire[:300])
+            if exp['k'] == 'err':
+                self.count('must_reject')
+                if out[0] != 'verr':
+                    self.violation(None, 'message containing something the receiver does not know was accepted: ' + what, ctx)
+                continue
+            self.count('must_accept')
+            if out[0] != 'ok':
+                self.violation(None, 'compatible message rejected (%s): %s' % (out[1], what), ctx)
+                continue
+            try:
+                proj = rcv['binder'].from_py(rroot, out[1])
+            except Unprojectable as e:
+                self.violation(None, 'receiver returned an invalid value (%s): %s' % (e, what), ctx)
+                continue
+            if proj != exp['v']:
+                self.violation(None, 'receiver view differs from the one the guide promises: ' + what, ctx, proj)
